@@ -14,7 +14,7 @@ ALL_OPS = ["ins", "rem", "get", "fetch", "evict_all", "hold", "gate", "close"]
 def profile(name, policy, **kw):
     p = dict(name=name, policy=policy, algo="fifo", shards=1, keys=[1, 2, 3], hash={1: 5, 2: 5, 3: 6},
              keyloc={1: "default", 2: "default", 3: "default"}, memcap=2, flush_on_close=True, tomblog=True,
-             ops=list(ALL_OPS), max_steps=5, max_ins=3, bufcap=128, cfg=dict(mem.DEFAULT_CFG))
+             ops=list(ALL_OPS), max_steps=5, max_ins=3, bufcap=128, reject=[], cfg=dict(mem.DEFAULT_CFG))
     p.update(kw)
     return p
 
@@ -51,6 +51,10 @@ def profiles_for(pid, tier):
             edge.append(profile(f"{pol}-advice", pol, keyloc=locs, hash=h, ops=ops, max_steps=d, max_ins=4))
             edge.append(profile(f"{pol}-advice-noflush", pol, keyloc=locs, hash=h, ops=ops, max_steps=d - 1,
                                 flush_on_close=False, max_ins=4))
+        for pol in ("woe", "woi"):
+            # the admission filter rejects key 2: it must never reach the device, and an older copy must not stay readable
+            edge.append(profile(f"{pol}-reject", pol, keyloc={1: "default", 2: "default", 3: "ondisk"}, hash=h, reject=[6],
+                                ops=["ins", "get", "fetch", "evict_all", "close"], max_steps=d, max_ins=4))
         edge.append(profile("woe-lfu-advice", "woe", algo="lfu", memcap=9, keyloc=locs, hash=h, ops=ops, max_steps=d - 1))
         edge.append(profile("woi-sieve-advice", "woi", algo="sieve", memcap=9, keyloc=locs, hash=h, ops=ops, max_steps=d - 1))
     elif pid == "C15":
@@ -99,7 +103,7 @@ def write_model(d, p, emit):
     lines = ["SPECIFICATION MCSpec", "CONSTANTS", f"  Keys = {core.tla_value(set(p['keys']))}", "  Hash <- c_Hash",
              "  KeyLoc <- c_KeyLoc", f"  MemCap = {p['memcap']}", f"  Policy = \"{p['policy']}\"",
              f"  FlushOnClose = {core.tla_value(p['flush_on_close'])}", f"  TombLog = {core.tla_value(p['tomblog'])}",
-             f"  BufCap = {p['bufcap']}", f"  OpSet = {core.tla_value(set(p['ops']))}", f"  MaxSteps = {p['max_steps']}",
+             f"  BufCap = {p['bufcap']}", f"  Reject = {core.tla_value(set(p['reject']))}", f"  OpSet = {core.tla_value(set(p['ops']))}", f"  MaxSteps = {p['max_steps']}",
              f"  MaxIns = {p['max_ins']}", f"  Emit = {'TRUE' if emit else 'FALSE'}", "CHECK_DEADLOCK FALSE"]
     lines += ["VIEW MCView"] if emit else ["INVARIANT Inv"]
     name = "MC_emit.cfg" if emit else "MC_inv.cfg"
@@ -114,7 +118,7 @@ def harness_cfgs(d, p):
     with open(hpath, "w") as f:
         json.dump({"policy": p["policy"], "flush_on_close": p["flush_on_close"], "tomblog": p["tomblog"],
                    "memcap": p["memcap"], "keyloc": {str(k): v for k, v in p["keyloc"].items()},
-                   "buffer_pages": p["bufcap"]}, f)
+                   "buffer_pages": p["bufcap"], "reject": list(p["reject"])}, f)
     return cfg, hpath
 
 
@@ -211,7 +215,7 @@ def trace_check(d, p, scripts, invariant, tag, max_rounds=6):
             "SPECIFICATION TraceSpec", "CONSTANTS", f"  Keys = {core.tla_value(set(p['keys']))}", "  Hash <- c_Hash",
             "  KeyLoc <- c_KeyLoc", f"  MemCap = {p['memcap']}", f"  Policy = \"{p['policy']}\"",
             f"  FlushOnClose = {core.tla_value(p['flush_on_close'])}", f"  TombLog = {core.tla_value(p['tomblog'])}",
-            f"  BufCap = {p['bufcap']}", f"INVARIANT {invariant}", "POSTCONDITION Consumed", "CHECK_DEADLOCK FALSE"]) + "\n")
+            f"  BufCap = {p['bufcap']}", f"  Reject = {core.tla_value(set(p['reject']))}", f"INVARIANT {invariant}", "POSTCONDITION Consumed", "CHECK_DEADLOCK FALSE"]) + "\n")
     out = []
     pending = list(scripts)
     rounds = 0
